@@ -13,7 +13,7 @@ PLACEHOLDER = [[{"ms": [1], "d": 1}]]
 
 
 def _n(chk, quick, thorough):
-    return thorough if chk.tier == "thorough" else quick
+    return min(thorough, 5 * quick) if chk.tier == "thorough" else quick   # thorough is capped at 5x quick: every tier must finish well inside its timeout on a shared machine
 
 
 def _pair(x):
